@@ -92,14 +92,17 @@ impl Path {
     #[verifier::external_body]
     pub fn metadata(&self, Tracked(w): Tracked<&mut World>) -> (r: std::result::Result<Metadata, io::Error>)
         ensures fr_ro(*old(w), *final(w)),
-            final(w).faults == old(w).faults + (if r is Err { 1nat } else { 0 }),
+            // ENOENT (nothing there / dangling link) is an answer, not a failed step; any other error is a fault
+            final(w).faults == old(w).faults + (if r is Err && exists_m(old(w).paths, self.key()) { 1nat } else { 0 }),
+            !exists_m(old(w).paths, self.key()) ==> r is Err,
             r is Ok ==> exists_m(old(w).paths, self.key()) && meta_of_node(r->Ok_0, old(w).paths[self.key()], old(w).files),
     { unimplemented!() }
     /// lstat(2)
     #[verifier::external_body]
     pub fn symlink_metadata(&self, Tracked(w): Tracked<&mut World>) -> (r: std::result::Result<Metadata, io::Error>)
         ensures fr_ro(*old(w), *final(w)),
-            final(w).faults == old(w).faults + (if r is Err { 1nat } else { 0 }),
+            final(w).faults == old(w).faults + (if r is Err && old(w).paths.contains_key(self.key()) { 1nat } else { 0 }),
+            !old(w).paths.contains_key(self.key()) ==> r is Err,
             r is Ok ==> old(w).paths.contains_key(self.key()) && r->Ok_0.spec_kind() == old(w).paths[self.key()].kind
                 && r->Ok_0.spec_len() == old(w).paths[self.key()].size
                 && (old(w).paths[self.key()].kind != NodeKind::Symlink ==> meta_of_node(r->Ok_0, old(w).paths[self.key()], old(w).files)),
